@@ -73,6 +73,26 @@ theorem c14_port_network_order (p : Nat) (h : p < 65536) :
 theorem c14_constants_from_source :
     (Spec.Uapi.consts.all fun c => constOf c.1 = c.2) = true := by decide
 
+/-- tie to the source: the attribute walk of kernel events steps over the padding (NLA_ALIGN), so that an attribute is found
+    whatever lengths the attributes before it have -/
+theorem c14_attributes_aligned_from_source : Gen.Layouts.attrAligned = true := by decide
+
+/-- an attribute walk that pads finds the template behind an attribute of any length: after an attribute of `len` octets
+    (4 ≤ len) the walk continues exactly at the next multiple of four -/
+theorem c14_attribute_step (fuel len ty : Nat) (hd rest : Bytes) (acc : Option (List (String × Val)))
+    (hl : hd.length = (len + 3) / 4 * 4) (h4 : 4 ≤ len) (hlen : rdLE (hd.take 2) = len) (hty : rdLE ((hd.drop 2).take 2) = ty)
+    (hne : ty ≠ constOf "XFRMA_TMPL") (hr : rest.length > 0) :
+    parseNlAttrs (fuel + 1) (hd ++ rest) acc = parseNlAttrs fuel rest acc := by
+  have h2 : 2 ≤ hd.length := by omega
+  have htake : (hd ++ rest).take 2 = hd.take 2 := by rw [List.take_append_of_le_length h2]
+  have hdrop : ((hd ++ rest).drop 2).take 2 = (hd.drop 2).take 2 := by
+    rw [List.drop_append_of_le_length h2, List.take_append_of_le_length (by simp; omega)]
+  have hbig : (hd ++ rest).length > 4 := by simp; omega
+  have hz : len ≠ 0 := by omega
+  conv => lhs; unfold parseNlAttrs
+  simp only [hbig, if_true, htake, hdrop, hlen, hty, c14_attributes_aligned_from_source, hne, if_false, hz]
+  rw [← hl, List.drop_left]
+
 /-- tie to the source: which argument of `create_sa` / `create_policy` / `delete_sa` feeds which field -/
 theorem c14_flows_from_source :
     (Gen.Layouts.flows.map fun f => (f.1, f.2.1.map fun c => (c.2.1, c.2.2.map (·.1)))) =
